@@ -125,11 +125,19 @@ def run(ctx) -> None:
         if ki % ctx.nshards != ctx.shard:
             continue
         want_verb, want_code = key.split("|")
+        gen = []
         try:
-            gen = list(api_args.calls(key, rng, Command, n))
+            # the controller addressed: an evohome (01:) and a programmer (23:, e.g. a second-DHW-valve controller) -
+            # the argument tables name it through api_args.CTL, read when the call is made
+            for ctl in ("01:145038", "23:100224"):
+                api_args.CTL = ctl
+                for thunk, expect, label in api_args.calls(key, rng, Command, n if ctl[:2] == "01" else max(8, n // 4)):
+                    gen.append((lambda thunk=thunk, ctl=ctl: (setattr(api_args, "CTL", ctl), thunk())[1], expect, f"{label} ctl={ctl[:2]}" if ctl[:2] != "01" else label))
         except KeyError:
             ctx.inconclusive_because(f"no argument table for API-map entry {key}")
             continue
+        finally:
+            api_args.CTL = "01:145038"
         for thunk, expect, label in gen:
             ctx.ev()
             ctx.count("calls")
